@@ -14,6 +14,7 @@ All theorems quantify over every expression tree (`Expr`, including `other k cs`
 every table content `T` unless stated for the extracted tables, and every environment `env` (every behaviour of
 operators, functions, `bool()` and tools, including raising).
 -/
+set_option linter.unusedSimpArgs false
 namespace Operon.Mito
 open R
 
@@ -223,16 +224,14 @@ theorem c01_work_linear (T : Tables) (env : Env) (e : Expr) : (walk T env e).1.l
 theorem c01_bounded_partial (e : IExpr) (h : e.powFree = true) : e.val < 2 ^ e.budget :=
   val_lt_budget e h
 
-/-- The 7-character expression `9**9**9` is outside the bounded class and its value needs more than 387 million
-    bits, while its budget (what a pow-free expression of the same literals could reach) is 12. -/
+/-- The 7-character expression `9**9**9` is outside the bounded class: its exponent is 387 420 489 and its value
+    needs more than that many bits, while its budget (what a pow-free expression of the same literals could reach)
+    is 12. -/
 theorem c01_pow_tower_unbounded_witness :
-    let tower := IExpr.pow (.lit 9) (.pow (.lit 9) (.lit 9))
-    tower.powFree = false ∧ tower.budget = 12 ∧ 2 ^ 387420489 ≤ tower.val := by
-  refine ⟨rfl, by decide, ?_⟩
-  show 2 ^ 387420489 ≤ 9 ^ (9 ^ 9)
-  have h : (9 : Nat) ^ 9 = 387420489 := by decide
-  rw [h]
-  exact Nat.pow_le_pow_left (by omega) _
+    let inner := IExpr.pow (.lit 9) (.lit 9)
+    let tower := IExpr.pow (.lit 9) inner
+    tower.powFree = false ∧ tower.budget = 12 ∧ inner.val = 387420489 ∧ 2 ^ inner.val ≤ tower.val := by
+  refine ⟨rfl, by decide, by decide, two_pow_le_pow_val _ _ (by decide)⟩
 
 /-! ### Non-vacuity -/
 
